@@ -5,7 +5,17 @@ PID = 'C18'
 
 
 def items():
-    return fingerprints.scenarios() + [c for c in codecs.CONTRACTS if PID in c.props] + [s for s in pubexport.scenarios() if PID in s.props]
+    base = fingerprints.scenarios() + [c for c in codecs.CONTRACTS if PID in c.props] + [s for s in pubexport.scenarios() if PID in s.props]
+    # where the id is written (issuer, issuer fingerprint, recipient), where key packets are read and converted (a conversion that changes
+    # the hashed body changes the fingerprint): the scenarios of other modules that carry this property's tag
+    from contracts import encryption, keymgmt, secretkeys, signing, subpacket_values, packets
+    seen = {i.cid for i in base}
+    for mod in (encryption, keymgmt, secretkeys, signing, subpacket_values, packets):
+        for s in mod.scenarios():
+            if PID in getattr(s, 'props', ()) and s.cid not in seen:
+                seen.add(s.cid)
+                base.append(s)
+    return base
 
 
 def run(tier='quick', seed=0, only=None):
